@@ -42,7 +42,38 @@ class RmqShaped(kc.CommunicatorHelper):
         self.sent = []             # log: ['rpc', recipient, msg] | ['broadcast', sender, subject] | ['task', type]
         self.receiver_errors = []
 
+    # ``own_ids``: the communicator hands out subscription handles of its own ('rpc-1', 'bc-2', ...) instead of echoing the identifier it
+    # was given, as the interface allows ("in all cases the identifier will be returned"); a subscription is given up with that handle
+    def add_rpc_subscriber(self, subscriber, identifier=None):
+        ident = super().add_rpc_subscriber(subscriber, identifier)
+        if not getattr(self, 'own_ids', False):
+            return ident
+        self._handles = getattr(self, '_handles', {})
+        handle = 'rpc-%d' % (len(self._handles) + 1)
+        self._handles[handle] = ident
+        return handle
+
+    def add_broadcast_subscriber(self, subscriber, identifier=None):
+        ident = super().add_broadcast_subscriber(subscriber, identifier)
+        if not getattr(self, 'own_ids', False):
+            return ident
+        self._handles = getattr(self, '_handles', {})
+        handle = 'bc-%d' % (len(self._handles) + 1)
+        self._handles[handle] = ident
+        return handle
+
+    def remove_broadcast_subscriber(self, identifier):
+        if getattr(self, 'own_ids', False):
+            if not str(identifier).startswith('bc-') or identifier not in self._handles:
+                raise ValueError("Broadcast subscriber '%s' unknown" % (identifier,))
+            identifier = self._handles.pop(identifier)
+        super().remove_broadcast_subscriber(identifier)
+
     def remove_rpc_subscriber(self, identifier):
+        if getattr(self, 'own_ids', False):
+            if not str(identifier).startswith('rpc-') or identifier not in self._handles:
+                raise ValueError("Unknown subscriber '%s'" % (identifier,))
+            identifier = self._handles.pop(identifier)
         # (fault: the request reaches the broker, the confirmation is lost -- the caller sees a timeout / closed connection)
         super().remove_rpc_subscriber(identifier)
         exc, self.fail_remove_rpc = getattr(self, 'fail_remove_rpc', None), None
